@@ -332,6 +332,24 @@ theorem C06_step_placed_or_grows (swr : Swr) (env : Loop.Env) (w : Loop.World) (
       (Loop.step swr env w (.cycle sc [] false)).shards[d]? = some shd ∧ (Loop.statusOf shd).has h = true :=
   Loop.step_placed_or_grows swr env w sc hrep hnc hnd hidle hmax hmp hmh hnn hfull ha hskip hbig hsz
 
+/-- … and the state reached is the converged one: after the repairing step every reported target is
+    in normal state, no target is reported by two running sidecars, and every target that was reported
+    before is still reported by somebody -/
+theorem C06_repaired_state_converged (swr : Swr) (env : Loop.Env) (w : Loop.World) (sc : Sched)
+    (r : Loop.Settled2 swr env w) :
+    (Loop.step swr env w (.cycle sc [] false)).replicas = w.replicas ∧
+    (∀ (i : Nat) (sh' : Loop.Shard) (h : Hash) (v : St), i < w.replicas →
+      (Loop.step swr env w (.cycle sc [] false)).shards[i]? = some sh' →
+      (Loop.statusOf sh').get h = some v → v.state = .normal) ∧
+    (∀ (i j : Nat) (shi shj : Loop.Shard) (h : Hash), i < w.replicas → j < w.replicas → i ≠ j →
+      (Loop.step swr env w (.cycle sc [] false)).shards[i]? = some shi →
+      (Loop.step swr env w (.cycle sc [] false)).shards[j]? = some shj →
+      (Loop.statusOf shi).has h = true → (Loop.statusOf shj).has h = true → False) ∧
+    (∀ (i : Nat) (sh : Loop.Shard) (h : Hash), w.running[i]? = some sh → (Loop.statusOf sh).has h = true →
+      ∃ (d : Nat) (shd : Loop.Shard), d < w.replicas ∧
+        (Loop.step swr env w (.cycle sc [] false)).shards[d]? = some shd ∧ (Loop.statusOf shd).has h = true) :=
+  Loop.loop_settles2_converged swr env w sc r
+
 /-- a cycle in which nothing has to move is exactly `gcTargets` (what the recovery theorem rests on) -/
 theorem C06_calm_cycle_is_gc (swr : Swr) (sc : Sched) (inp : Input) (q : Calm swr inp) :
     (cycle swr sc inp).crashed = false ∧
